@@ -28,6 +28,10 @@ def make_spec(g, allow):
             cfgno = r.choice([1, 1, 2])
             if r.random() < 0.7:
                 v = g.body((), ('cr', 'long') if r.random() < 0.3 else ())
+                if r.random() < 0.15:
+                    # tabs, vertical tabs, form feeds: the pretty printer aligns columns; the file holds
+                    # the FORMATTED value (asked from the harness: `fmtval`)
+                    v = r.choice([b'name\tqty\napple\t3', b'a\tb\tc\n1\t22\t333\n', b'x\vy', b'page1\fpage2', b'\tindented', b'trailing\t']) + (b'\n' + v if r.random() < 0.5 else b'')
                 calls.append((cfgno, Call('sasnap', v)))
             elif r.random() < 0.85:
                 val = g.json_value()
@@ -59,13 +63,14 @@ def render(tag, spec):
                 # defaults <ext> to .json, so it has its own sequence unless Ext is set)
                 key = (cfgno, c.kind == 'sajson' and spec['cfgs'][cfgno - 1].split()[4] == '-')
                 kk[key] = kk.get(key, 0) + 1
+                fv = w.add('fmtval ' + core.hx(c.payload)) if c.kind == 'sasnap' and any(ch in c.payload for ch in b'\t\v\f') else None
                 i = w.add(c.op(cfgno, texec))
                 d = w.add('fsdump')
-                checks.append((i, d, name, cfgno, kk[key], c, rep))
+                checks.append((i, d, name, cfgno, kk[key], c, rep, fv))
             w.add('end %d' % texec)
 
     def oracle(line, raw, ww):
-        for i, d, name, cfgno, k, c, rep in checks:
+        for i, d, name, cfgno, k, c, rep, fv in checks:
             res = Line(ww.impl[i])
             fs = parse_fs(ww.impl[d])
             suf = sa_suffix(spec['cfgs'][cfgno - 1], name, k, c.kind == 'sajson')
@@ -83,7 +88,8 @@ def render(tag, spec):
             if len(hit) != 1:
                 return 'op %d: expected the value alone in a file ending with %r; files: %r' % (i, suf, sorted(fs)[:6])
             if c.kind == 'sasnap':
-                if fs[hit[0]] != c.payload:
+                want = c.payload if fv is None else core.unhx(ww.impl[fv].split(' ')[1])
+                if fs[hit[0]] != want:
                     return 'op %d: file bytes differ from the formatted value (%d vs %d bytes)' % (i, len(fs[hit[0]]), len(c.payload))
             else:
                 try:
@@ -110,6 +116,11 @@ def render(tag, spec):
         kk[key] = kk.get(key, 0) + 1
         if c.kind == 'sasnap':
             nv = c.payload[: len(c.payload) // 2] + b'!' if len(c.payload) > 3 else c.payload + b' longer than before\r\n'
+            nv = bytes(ch for ch in nv if ch not in b'\t\v\f')      # the new value is compared byte for byte
+            ls = c.payload.split(b'\n')
+            if any(l in (b'---', b'/-/-/-/') for l in ls) and not any(ch in c.payload for ch in b'\t\v\f'):
+                # standalone files are never escaped: a `---` line and a `/-/-/-/` line are different values
+                nv = b'\n'.join(b'/-/-/-/' if l == b'---' else (b'---' if l == b'/-/-/-/' else l) for l in ls)
             i = w.add(Call('sasnap', nv).op(cfgno, texec))
             d = w.add('fsdump')
             ups.append((i, d, cfgno, kk[key], nv))
